@@ -72,6 +72,7 @@ def tokenize(text):
 
 
 TYPE_ALIAS = {}     # generic parameter -> concrete type (from the spec)
+OPAQUE = {}         # spec: {'type': LeanName, 'chains': {'a().b()': [rust type, field]}} for trait-object parameters
 EXTERN = {}         # struct name -> namespace of another generated file that defines it (and the functions it owns)
 INT_TYPES = {'u8': 8, 'u16': 16, 'u32': 32, 'u64': 64, 'usize': 64}
 
@@ -623,6 +624,7 @@ class Tr:
         if ty == 'string': return 'Rs.Str'
         if ty == 'strings': return 'Rs.Str'
         if ty == 'unit': return 'Unit'
+        if ty == 'opaque' and OPAQUE: return OPAQUE['type']
         if ty == 'chunks': return '(List Bytes)'
         if isinstance(ty, tuple) and ty[0] == 'result' and self.err_is_value(ty):
             return f'(Rs.ResV {self.lean_ty(ty[2], self_ty)} {self.lean_ty(ty[1], self_ty)})'
@@ -952,8 +954,25 @@ class Tr:
                     return ce[1][1], ce[2][1], ty[1]
         return None
 
+    def opaque_chain(self, e, env):
+        """`cfg.a().b()` on a parameter of an opaque (trait-object) type: the abstract field the spec assigns to that chain"""
+        if not OPAQUE: return None
+        parts, x = [], e
+        while x[0] == 'mcall' and not x[3]:
+            parts.append(x[2] + '()'); x = x[1]
+        while x[0] in ('paren', 'ref', 'deref'): x = x[1]
+        if x[0] != 'path' or len(x[1]) != 1 or x[1][0] not in env['vars'] or env['vars'][x[1][0]][1] != 'opaque': return None
+        key = '.'.join(reversed(parts))
+        if key not in OPAQUE['chains']:
+            raise TranslateError(f'method chain {key} on an opaque parameter is not described in the spec')
+        rty, field = OPAQUE['chains'][key]
+        t = P(tokenize(rty)).ty()
+        return f'{env["vars"][x[1][0]][0]}.{field}', t
+
     def mcall(self, e, env, expect):
         recv, name, args = e[1], e[2], e[3]
+        oc = self.opaque_chain(e, env)
+        if oc is not None: return oc
         if name == 'unwrap' and recv[0] == 'call' and recv[1][-1] == 'load' and len(recv[2]) == 1:
             a = recv[2][0]
             while a[0] in ('ref', 'paren'): a = a[1]
@@ -1060,8 +1079,10 @@ class Tr:
             out = []; rt = 'lit'
             for pat, guard, body in arms:
                 if guard: raise TranslateError('match guard on enum')
+                en = lean_struct(t[1])
                 if pat[0] == 'ppath': lp = '.' + pat[1][-1]
                 elif pat[0] == 'pwild': lp = '_'
+                elif pat[0] == 'por' and all(x[0] == 'ppath' for x in pat[1]): lp = ' | '.join(en + '.' + x[1][-1] for x in pat[1])
                 else: raise TranslateError('enum pattern')
                 b, bt = self.ex(body, self.fork(env), expect)
                 if bt != 'lit': rt = bt
@@ -1113,6 +1134,11 @@ class Tr:
                 if e[3]: walk(e[3])
                 return
             if e[0] == 'block': walk(e[1]); return
+            if e[0] == 'match':
+                for _, _, b in e[2]:
+                    if b[0] == 'block': walk(b[1])
+                    else: walk([('expr', b, True)])
+                return
             if e[0] == 'macro' and e[1] in ('write', 'writeln'):
                 n = e[2][0][1]
                 if n not in declared and n not in vs: vs.append(n)
@@ -1226,6 +1252,11 @@ class Tr:
             return self.if_stmt(e, rest, env, expect, is_tail)
         if e[0] == 'match':
             d = self.match_as_ifs(e, env)
+            if d is not None and not rest and self.scrut_is_enum(e, env) and not self.assigned([('expr', e, True)], env)[0]:
+                d = None            # value position, nothing assigned: keep it a `match`
+            if d is not None and d[0] == 'block':
+                if rest and any(x[0] == 'let' for x in d[1]): raise TranslateError('single-arm match whose body declares variables')
+                return self.stmts(list(d[1]) + list(rest), env, expect)
             if d is not None:
                 return self.if_stmt(d, rest, env, expect, is_tail)
         if e[0] == 'match' and not rest:
@@ -1376,14 +1407,31 @@ class Tr:
         walk(rest)
         return found[0] if found and all(f == found[0] for f in found) else None
 
+    def scrut_is_enum(self, e, env):
+        try:
+            _, t = self.ex(e[1], env)
+        except TranslateError:
+            return False
+        return isinstance(t, tuple) and t[0] == 'struct' and t[1] in self.it.enums
+
     def match_as_ifs(self, e, env):
         """`match <integer> { lit => A, lit | lit => B, _ => C }` without guards, as nested `if`s (first arm that matches wins)"""
         try:
             _, t = self.ex(e[1], env)
         except TranslateError:
             return None
-        if t not in INT_TYPES: return None
+        is_enum = isinstance(t, tuple) and t[0] == 'struct' and t[1] in self.it.enums
+        if t not in INT_TYPES and not is_enum: return None
         def cond_of(pat):
+            if is_enum:
+                if pat[0] == 'ppath': return ('bin', '==', e[1], ('path', pat[1]))
+                if pat[0] == 'por':
+                    cs = [cond_of(p) for p in pat[1]]
+                    if any(c is None for c in cs): return None
+                    r = cs[0]
+                    for c in cs[1:]: r = ('bin', '||', r, c)
+                    return r
+                return None
             if pat[0] == 'plit': return ('bin', '==', e[1], ('lit', pat[1], None, str(pat[1])))
             if pat[0] == 'por':
                 cs = [cond_of(p) for p in pat[1]]
@@ -1395,13 +1443,17 @@ class Tr:
                 return ('bin', '&&', ('bin', '>=', e[1], ('lit', pat[1][1], None, '')), ('bin', '<=', e[1], ('lit', pat[2][1], None, '')))
             return None
         arms = e[2]
-        if not arms or arms[-1][0][0] not in ('pwild', 'pbind') or any(g for _, g, _ in arms): return None
+        if not arms or any(g for _, g, _ in arms): return None
+        # integers need a catch-all; a match on an enum is exhaustive (rustc checks it), its last arm is the `else`
+        if not is_enum and arms[-1][0][0] not in ('pwild', 'pbind'): return None
         def blk(b): return b[1] if b[0] == 'block' else [('expr', b, True)]
         res = blk(arms[-1][2])
         for pat, _, body in reversed(arms[:-1]):
             c = cond_of(pat)
             if c is None: return None
             res = [('expr', ('if', c, blk(body), res), True)]
+        if len(arms) == 1:                       # a single (exhaustive) arm: just its body
+            return ('block', res)
         return res[0][1]
 
     def fresh(self, name, env):
@@ -1599,6 +1651,7 @@ Tr.ex = _ex
 def generate(spec, repo):
     TYPE_ALIAS.clear(); TYPE_ALIAS.update(spec.get('type_alias', {}))
     EXTERN.clear()
+    OPAQUE.clear(); OPAQUE.update(spec.get('opaque', {}))
     for ns, names in spec.get('extern', {}).items():
         for n in names: EXTERN[n] = ns
     items = Items()
@@ -1698,6 +1751,11 @@ def generate(spec, repo):
                 for f, ft in fs:
                     L.append(f'  {tr.fld(f)} : {tr.lean_ty(ft, sn)}')
                 L.append('  deriving DecidableEq, Repr, Inhabited')
+    if OPAQUE:
+        L.append(f"/-- abstract view of the configuration object (a trait object in the source): one field per method chain the translated code uses -/")
+        L.append(f"structure {OPAQUE['type']} where")
+        for key, (rty, field) in OPAQUE['chains'].items():
+            L.append(f"  {field} : {tr.lean_ty(P(tokenize(rty)).ty())}    -- {key}")
     for q in order:
         L.append(texts[q])
     L.append('/-! kernel-checked: every literal mask was split into contiguous runs correctly -/')
